@@ -172,8 +172,9 @@ class Check:
         if audit:
             names = expected_theorems(pid)
             res, alog, aok = lean_audit(pid) if ok else ({}, "build failed", False)
+            short = {k.split(".", 1)[1] if k.startswith("PyPred.") else k: v for k, v in res.items()}
             for nm in names:
-                axs = res.get(nm)
+                axs = res.get(nm, short.get(nm))
                 if axs is None:
                     self.obligations.append((nm, False, "not checked (missing or build broken)"))
                 elif set(axs) - ALLOWED_AXIOMS:
@@ -208,7 +209,9 @@ class Check:
     def add_failure(self, inp, detail, explained_by=None):
         self.failures.append({"input": inp, "detail": detail, "explained_by": explained_by})
         if explained_by:
-            self.known_hit.setdefault(explained_by, detail)
+            old = self.known_hit.get(explained_by)
+            if old is None or len(str(inp)) < len(str(old["input"])):
+                self.known_hit[explained_by] = {"input": inp, **(detail if isinstance(detail, dict) else {"detail": detail})}
 
     # -- outcome
     def write_replay(self, kind, payload):
@@ -279,8 +282,10 @@ class Check:
             path = self.write_replay("not-shown", {"broken": broken, "note": "the theorem or correspondence named here no longer checks; the search found no input on which the property fails"})
             print(f"VIOLATION property={self.pid} replay={path} no-failing-input-found")
             code = 1
-        for fid, what in sorted(self.known_hit.items()):
-            print(f"KNOWN-FINDING: property={self.pid} {fid}: {what}")
+        texts = {f["id"]: f.get("what", "") for f in load_known()["findings"]}
+        for fid, d in sorted(self.known_hit.items()):
+            eg = {k: v for k, v in d.items() if k in ("input", "optimized", "assignment", "value", "original_value", "optimized_value")}
+            print(f"KNOWN-FINDING: property={self.pid} {fid} {texts.get(fid, '')} -- e.g. {json.dumps(eg, default=str)}")
         self.write_evidence(violations=len(unexplained) + (1 if (broken and not unexplained) else 0))
         d = sum(1 for o in self.obligations if o[1])
         print(f"[{self.pid} {self.tier} seed={self.seed}] theorems {d}/{len(self.obligations)} ok; correspondence " + ", ".join(f"{c['name']}:{c['cases']}/{c['disagreements']}d" for c in self.corr) + f"; failing inputs: {len(self.failures)} ({len(unexplained)} unexplained); {round(time.time() - self.t0, 1)}s")
